@@ -283,8 +283,10 @@ int main(int argc, char** argv) {
   grids.push_back({"user-ulp-inside", 2, 0, 0, {0.5, 1.0, std::nextafter(1.0, 2.0), 2.0}});
   grids.push_back({"user-ulp-ends", 2, 0, 0, {-3.0, std::nextafter(-3.0, 0.0), 0.75, 4.0, std::nextafter(4.0, 5.0)}});
   // elapsed time may be negative (Evolve(-dt) without numerics just moves the clock back): "any t-t_ini"
-  std::vector<TimeCfg> tcs = {{0, 0, false}, {1.5, 0, false}, {1.5, 0.5, false}, {0, 2, false}, {1.5, 2, false}, {1.5, 0.5, true}, {0, 2, true}, {1.5, -1.25, false}, {0, -0.6, false}};
-  if (ar.reduced) { grids.resize(3); tcs = {{1.5, 0.5, false}, {0, 2, true}, {1.5, -1.25, false}}; }
+  std::vector<TimeCfg> tcs = {{0, 0, false}, {1.5, 0, false}, {1.5, 0.5, false}, {0, 2, false}, {1.5, 2, false}, {1.5, 0.5, true}, {0, 2, true}, {1.5, -1.25, false}, {0, -0.6, false},
+                              // the clock lands exactly on 0 although t_ini is not 0 (t == 0 is not "nothing has elapsed"); negative t_ini
+                              {1.5, -1.5, false}, {-2.0, 2.0, false}, {-2.0, 0.75, false}};
+  if (ar.reduced) { grids.resize(3); tcs = {{1.5, 0.5, false}, {0, 2, true}, {1.5, -1.25, false}, {1.5, -1.5, false}}; }
   long long caseno = 0;
   // every grid through the vector overload and through its natural overload on a fresh object, for every time configuration; the
   // histories that reach the grid on a used object for two time configurations
